@@ -570,6 +570,25 @@ func c10(x *mon.Ctx) {
 		c.Resp[s.url] = world.Resp{Err: "connection reset"}
 		rcases = append(rcases, c)
 	}
+	// 3b. hostile content in correctly SIGNED documents: every scalar value of the TCB Info and of the QE Identity replaced by
+	//     values of other lengths / ranges / types, the document re-signed by the genuine signer — these pass the signature gate
+	//     and reach the evaluation code
+	for di, d := range []struct{ url, member, raw string }{
+		{slots[0].url, "tcbInfo", w.Tcb.JSON()}, {slots[1].url, "enclaveIdentity", w.Qe.JSON()},
+	} {
+		good := cs.Resp[d.url]
+		for ti, tok := range scalarTokens(d.raw) {
+			if x.Quick() && di == 0 && ti > 40 && ti%7 != 0 {
+				continue // the TCB Info's component lists repeat the same three members sixteen times per level
+			}
+			for vn, v := range scalarVariants(d.raw[tok[0]:tok[1]]) {
+				c := cs.Clone()
+				c.Class, c.Param = "signed-hostile-document", fmt.Sprintf("%s#token%d@%d/%s", d.member, ti, tok[0], vn)
+				c.Resp[d.url] = world.Resp{H: good.H, B: world.SignedBody(d.member, d.raw[:tok[0]]+v+d.raw[tok[1]:], w.PKI.TcbSign.Key)}
+				rcases = append(rcases, c)
+			}
+		}
+	}
 	// odd certificates in the quote's own chain slots
 	for name, pem := range odd {
 		oc := &world.Cert{PEM: pem}
@@ -676,4 +695,57 @@ func c10(x *mon.Ctx) {
 		}
 		x.Note(c.Class, c.Param, out.Accepted, out.Panic != "", out.Panic == "")
 	})
+}
+
+// scalarTokens returns the [start,end) spans of the scalar member values (string literals and numbers) of a JSON text.
+func scalarTokens(raw string) [][2]int {
+	var out [][2]int
+	for i := 0; i < len(raw); i++ {
+		switch c := raw[i]; {
+		case c == '"':
+			j := i + 1
+			for j < len(raw) && raw[j] != '"' {
+				if raw[j] == '\\' {
+					j++
+				}
+				j++
+			}
+			k := j + 1
+			for k < len(raw) && (raw[k] == ' ' || raw[k] == '\n') {
+				k++
+			}
+			if k >= len(raw) || raw[k] != ':' { // a value, not a member name
+				out = append(out, [2]int{i, j + 1})
+			}
+			i = j
+		case c == '-' || c >= '0' && c <= '9':
+			j := i
+			for j < len(raw) && strings.ContainsRune("-+.eE0123456789", rune(raw[j])) {
+				j++
+			}
+			out = append(out, [2]int{i, j})
+			i = j - 1
+		}
+	}
+	return out
+}
+
+// scalarVariants are replacement texts for one scalar JSON value.
+func scalarVariants(tok string) map[string]string {
+	out := map[string]string{"null": "null", "object": "{}", "array": "[]", "true": "true", "minus-one": "-1", "zero": "0", "2^32": "4294967296", "1e400": "1e400", "fraction": "1.5",
+		"255": "255", "256": "256", "65535": "65535", "65536": "65536", "empty-string": `""`, "non-hex": `"zz"`, "long-hex": `"` + strings.Repeat("ab", 35000) + `"`}
+	if strings.HasPrefix(tok, `"`) {
+		v := tok[1 : len(tok)-1]
+		out["doubled"] = `"` + v + v + `"`
+		out["plus-one-byte"] = `"` + v + "00" + `"`
+		out["plus-one-nibble"] = `"` + v + "0" + `"`
+		if len(v) >= 2 {
+			out["minus-one-byte"] = `"` + v[:len(v)-2] + `"`
+			out["first-byte-only"] = `"` + v[:2] + `"`
+		}
+		out["as-number"] = "7"
+	} else {
+		out["as-string"] = `"` + tok + `"`
+	}
+	return out
 }
